@@ -11,6 +11,18 @@ os.makedirs("/tmp/seed", exist_ok=True)
 if not os.path.exists(wt):
     subprocess.run(["git", "-C", "/repo", "worktree", "add", "-q", "--detach", wt, "HEAD"], check=True)
 files = ", ".join(p["anchors"]["files"])
+# changes already delivered for this property in earlier waves (site + effect only): the new ones must differ from them
+import glob, re
+prev = []
+for d in sorted(glob.glob(f"/verif/seeded/{pid}-*")):
+    try:
+        m = json.load(open(os.path.join(d, "meta.json")))
+        sites = re.findall(r"^\+\+\+ b/(\S+)", open(os.path.join(d, "patch.diff")).read(), re.M)
+        prev.append(f" - {', '.join(sites)}: {m.get('summary', '(no summary)')}")
+    except Exception:
+        pass
+avoid = ("\n## Already tried (do NOT repeat these or close variants of them; pick other clauses, other code sites, other mechanisms)\n\n"
+         + "\n".join(prev) + "\n") if prev else ""
 task = f"""# Task: seed breaking changes for one semantic property of libnano
 
 You are testing how robust a C++ library's behaviour is against subtle regressions. The library is libnano
@@ -27,6 +39,7 @@ It is meant for: {p['quantifier']['text']}
 
 Relevant code: {files}
 
+{avoid}
 ## What to produce
 
 {n} different, independent source changes to the library (each a separate patch against the worktree's HEAD) that each BREAK this
